@@ -3,19 +3,25 @@ module verifharness
 go 1.23
 
 require (
+	github.com/ethereum/go-ethereum v1.10.23
+	github.com/holiman/uint256 v1.2.2
 	github.com/rigochain/rigo-go v0.0.0
 	github.com/tendermint/tendermint v0.34.24
 )
 
 require (
 	github.com/btcsuite/btcd v0.22.1 // indirect
-	github.com/ethereum/go-ethereum v1.10.23 // indirect
+	github.com/confio/ics23/go v0.7.0 // indirect
+	github.com/cosmos/iavl v0.19.1 // indirect
 	github.com/go-kit/log v0.2.1 // indirect
 	github.com/go-logfmt/logfmt v0.5.1 // indirect
 	github.com/gogo/protobuf v1.3.2 // indirect
 	github.com/golang/protobuf v1.5.2 // indirect
-	github.com/holiman/uint256 v1.2.2 // indirect
+	github.com/golang/snappy v0.0.4 // indirect
+	github.com/google/btree v1.0.0 // indirect
 	github.com/pkg/errors v0.9.1 // indirect
+	github.com/syndtr/goleveldb v1.0.1-0.20210819022825-2ae1ddf74ef7 // indirect
+	github.com/tendermint/tm-db v0.6.7 // indirect
 	golang.org/x/crypto v0.1.0 // indirect
 	golang.org/x/net v0.1.0 // indirect
 	golang.org/x/sys v0.1.0 // indirect
